@@ -24,6 +24,18 @@ CLAIMS = {
   text="Static analysis of the range-read safety envelope and wiring: every non-nil result of ObjectRangeRequest.Range(size) is dominated by guards entailing 0<=Start<size and 0<=Length<=size-Start with wrap-free guard arithmetic; all four backends pass the stored size, return Range()'s error unchanged, slice/seek/limit with exactly that result and report it in Object.Range; Content-Range/Content-Length are written from it between entity headers and body; every parse failure returns InvalidRange (416). Arithmetic exactness of in-range results is NOT decided.",
   note="trusted: go/ssa, value-equivalence (load equivalence) rules. Not decided: off-by-one in computed length, whitespace variants, multi-range answer.",
   tech="guard-fact dominance with symbolic (parametric) bounds on SSA + provenance slices for wiring", ref="DESIGN.md §4 C11"),
+ "C01": dict(
+  text="Static provenance analysis of what makes the returned ETag, size and metadata belong to the stored bytes, on every handler path and in all four backends: the ETag header is the Sum of the very hashing reader handed to PutObject over the request body; every PutObject stores hash and body of one single consumption of the input (ReadAll→md5.Sum of the same value; or one io.Copy into a MultiWriter over exactly the truncating-opened object file and the hasher); Object.Size/Hash/Metadata and Content-Length derive from the stored record; header-name constants are canonical and the persisted header set covers the property's headers; GET and HEAD replay every stored header and the ETag through one shared function before length and body; stored bodies are never mutated; no storage error is dropped. Byte equality itself is not decided.",
+  note="trusted: go/ssa, the may-flow provenance slices (over-approximate), accepted error-handling idioms listed in rules/c01.go. Not decided: byte equality, empty bodies, URL escaping, BSON/JSON value round trips.",
+  tech="interprocedural provenance slices (def-use, call-site sensitive) + dominance on SSA; error-discipline scan", ref="DESIGN.md §4 C01"),
+ "C06": dict(
+  text="Static analysis of the uploader's completion protocol on all paths: the part-order test examines the list as sent (no sort on its provenance) and guards InvalidPartOrder; validate-then-mutate (no validation error after PutObject/remove; remove only after checked PutObject / checked lookup); both bounds of every part index discharged (compiler bounds list); listed ETag compared with the stored part of that number and nil slots rejected; abort cannot reach a Backend method (call graph); a part is read and length-checked before any lock, stored at its own number with MD5 of that body; the assembled body is empty + whole listed part bodies, stored with the initiation metadata, ETag from part MD5s and len(parts).",
+  note="trusted: go/ssa, VTA call graph, gc prove pass for the bounds list. Not decided: byte equality of the concatenation, strict ascending order for duplicate numbers.",
+  tech="SSA reachability/dominance, provenance slices, call-graph reachability, bounds-obligation discharge", ref="DESIGN.md §4 C06"),
+ "C10": dict(
+  text="Static containment analysis of every filesystem/bolt access of the persistent backends: key-derived afero paths are dominated by a checked containment sanitiser (a path.Clean-fixpoint test with an error arm); bolt bucket operations on request names are dominated by a rejecting comparison with the internal bucket name; single-bucket methods compare the bucket name before any effect; multi-bucket object methods establish bucket existence first; the metadata file name hashes the unmodified key; routing passes names unchanged; RemoveAll is never applied to key-derived paths.",
+  note="trusted: go/ssa, provenance slices. Not decided: whole-store non-interference, percent-encoding, OS behaviour for odd names, keys that are path-prefixes of other keys on fs backends.",
+  tech="taint-style provenance slices to path arguments + guard dominance (sanitiser must dominate sink)", ref="DESIGN.md §4 C10"),
 }
 
 NOT_APPLICABLE = {
